@@ -613,13 +613,13 @@ def function_level(rng, tier, st):
             why = (layout_oracle(c, c["offs"], tw) or scale_oracle(c, c["offs"], tw, wsc, bv)
                    or weight_oracle(c, c["offs"], tw, wv))
             if why:
-                add_bad(st, (dict(oracle=why.split(" of (")[0][:50], kind=c["kind"], ncores=HW[c["accel"]][0]),
+                add_bad(st, (dict(oracle=" ".join(__import__("re").sub(r"\d+", "#", why).split()[:5]), ncores=HW[c["accel"]][0]),
                                    dict(case=c, reason=why), "encode_weight_and_scale_tensor: " + why))
         elif status == "err" and valid and all(-(1 << 39) <= b < (1 << 39) and 0 <= m < (1 << 32) and 0 <= s < 64
                                                for b, m, s in expected_channel_records(c, wsc, bv)[0]):
             # a well-formed request whose records all fit the documented field widths was rejected
             if True:
-                add_bad(st, (dict(oracle="rejected", kind=c["kind"], ncores=HW[c["accel"]][0]), dict(case=c, reason=r),
+                add_bad(st, (dict(oracle="rejected", ncores=HW[c["accel"]][0]), dict(case=c, reason=r),
                                    "encode_weight_and_scale_tensor raised %s on a well-formed request" % r))
         if len(st["samples"]) < 3 and status == "ok" and valid and len(c["offs"]) > 2:
             st["samples"].append(dict(case={k: c[k] for k in ("kind", "accel", "wshape", "ifm_dtype", "bd", "offs")},
@@ -667,7 +667,7 @@ def bias_level(rng, tier, st):
         elif out[0] == 1 and (len(out) != 11 or parse_record(out[1:]) != (b, s, h, 0)):
             why = "record %r does not read back as (bias, scale, shift) = %r" % (out[1:], (b, s, h))
         if why:
-            add_bad(st, (dict(oracle="encode_bias", why=why[:40]), dict(bias=b, scale=s, shift=h, got=out), "encode_bias(%d, %d, %d): %s" % (b, s, h, why)))
+            add_bad(st, (dict(oracle="encode_bias", why=" ".join(why.split()[:2])), dict(bias=b, scale=s, shift=h, got=out), "encode_bias(%d, %d, %d): %s" % (b, s, h, why)))
         if inr:
             st["nontrivial"].add(("bias", b.bit_length() // 8, b < 0, s.bit_length() // 8, h // 16))
     if st["okx"]:
